@@ -12,6 +12,8 @@ CFG = {
         'bmtree.PathOf+PathToIndexLoose/debug': 'the same, -tags debug build',
         'bmtree.PathOf+PathToIndex': 'bmtree.PathToIndex(T, bmtree.PathOf(s, from, Height(T))) (release build)',
         'bmtree.PathOf+PathToIndex/debug': 'the same, -tags debug build',
+        'bmtree.PathToIndex/session': 'a sequence of bmtree.PathToIndexLoose / PathToIndex calls on one level mask, in order, in one process (release build)',
+        'bmtree.PathToIndex/session/debug': 'the same, -tags debug build',
         'bmtree.PathToIndex/debug-raw': 'bmtree.PathToIndex on RAW (int32, uint64) arguments, -tags debug build only'},
  # two harness builds; every case runs on both. In the debug build github.com/openacid/must is active,
  # a contract panic is observed as P and rejected by the specification.
@@ -31,6 +33,8 @@ CFG = {
          'WIDENING (ops bmtree.PathOf+PathToIndex*): from a key to its index — every T in [1,16) x every string of <= 2 bytes over {00,80,ff,a5} x every from; '
          'random heights 0..30, keys of 0..7 bytes over {00,01,7f,80,ff,a,b,a5}, from byte-aligned / unaligned / window ending at the end of the key; '
          'expected = rank of the node spelled by the key bits from..from+h (cut at the end of the key); '
+         'SESSIONS (ops */session): for one mask a sequence of lookups in order in one process — every T < 2^7 x every absent-level node X: Loose(X) then PathToIndex(first stored descendant) '
+         '(same index), reverse order, Loose/Loose, last-descendant/X/first-descendant; every T < 2^4 x all ordered pairs of lookups; trie descents and random walks on trees up to height 30; '
          'non-trivial = not the root and at least one stored node precedes it; distinct = distinct (op,args,build)',
  'assumptions': ['1 <= bitmapSize < 2^31 (int32, height <= 30)', '|q| <= Height(bitmapSize)',
                  'PathToIndex is only claimed (and only called) for nodes on a stored level',
